@@ -131,7 +131,18 @@ pub fn build_file(c: &XzCase, orig_check: u8) -> Option<XzFile> {
         "bhcrc" => f.blocks[bi].hcrc_xor = 1,
         "bpad" => f.blocks[bi].bpad_pat = m.v as u8,
         "check" => f.blocks[bi].check_xor = 1,
-        "fid" => f.blocks[bi].filter_id = Some(m.v as u64),
+        "fid" => {
+            f.blocks[bi].filter_id = Some(match m.v {
+                1000001 => (1u64 << 32) + 0x21,
+                1000002 => (1u64 << 40) + 0x21,
+                1000003 => (1u64 << 62) + 0x21,
+                v => v as u64,
+            })
+        }
+        "pdeclBig" => f.blocks[bi].packed_decl = Some(f.blocks[bi].payload.len() as u64 + (1u64 << 32)),
+        "udeclBig" => f.blocks[bi].unpacked_decl = Some(f.blocks[bi].content.len() as u64 + (1u64 << 32)),
+        "idxUnpaddedBig" => f.idx_rec_add = Some((bi, 0, 1u64 << 32)),
+        "idxUnpackedBig" => f.idx_rec_add = Some((bi, 1, 1u64 << 32)),
         // a legal chain of the format that lzma-rs does not support: delta filter, then LZMA2
         "nfilters" => f.blocks[bi].extra_filters = vec![(0x03, vec![0])],
         "propsLen" => f.blocks[bi].filter_props = Some(vec![22; m.v as usize]),
